@@ -148,7 +148,12 @@ fn shutdown_case(cfg: &Cfg, pos: Pos, ncallers: usize, order: &[Tok], case: &str
             c.set_filter(|l, p, _| l == DAEMON && p == "d.before_req");
             c.arm();
             let _ = sys::send_all(pfd, &spec::msg(spec::fe::GET_FEATURES, spec::F_VERSION1, &[]), &[]);
-            let _ = spec::read_msg(pfd, 10_000, 64);
+            // either the request is served first (the thread was already reading) and the thread is
+            // held before the next one, or it is held before this one
+            sys::wait_until(10_000, || sys::inq(pfd) >= 20 || c.waiting().iter().any(|w| w.point == "d.before_req"));
+            if sys::inq(pfd) > 0 {
+                let _ = spec::read_msg(pfd, 10_000, 64);
+            }
             held_point = Some("d.before_req");
         }
         Pos::HeaderReceivedBodyPending => {
@@ -184,9 +189,15 @@ fn shutdown_case(cfg: &Cfg, pos: Pos, ncallers: usize, order: &[Tok], case: &str
     }
     if let Some(p) = held_point {
         if c.wait_arrival(10_000, |w| w.point == p).is_none() {
-            report::inconclusive(&format!("{case}: daemon thread did not reach {p}"));
-            c.reset();
-            return;
+            if p == "d.before_final_shutdown" && !sys::threads().iter().any(|t| t.0 == dtid) {
+                // the thread left without passing the point: the position degenerates to "after exit"
+                report::observe("daemon-thread-exited-without-final-shutdown-point", J::Null);
+                held_point = None;
+            } else {
+                report::inconclusive(&format!("{case}: daemon thread did not reach {p}"));
+                c.reset();
+                return;
+            }
         }
     }
     // holds for the shutdown callers are added to the filter now
@@ -250,10 +261,24 @@ fn shutdown_case(cfg: &Cfg, pos: Pos, ncallers: usize, order: &[Tok], case: &str
             r
         });
         let deadline = Instant::now() + Duration::from_secs(30);
+        let base_ticks = sys::thread_cpu_ticks(dtid);
         while !done.load(Ordering::SeqCst) {
             std::thread::sleep(Duration::from_millis(1));
             let wt = wtid.load(Ordering::SeqCst);
             let daemon_alive = sys::threads().iter().any(|t| t.0 == dtid);
+            // the daemon thread burning CPU while wait() is parked joining it: it spins (serving a
+            // request needs microseconds); it cannot be joined, so the shard reports and ends
+            let burnt = sys::thread_cpu_ticks(dtid).saturating_sub(base_ticks);
+            if daemon_alive && wt > 0 && burnt >= sys::SPIN_TICKS && sys::parked_in(wt, &[sys::SYS_FUTEX]) {
+                report::eval(1);
+                report::violation(
+                    &format!("C16:shutdown:{pos:?}:daemon-thread-spins"),
+                    jo! {"position" => format!("{pos:?}"), "shutdown_callers" => ncallers, "schedule" => trace.clone(),
+                    "certificate" => format!("wait() parked joining the daemon thread; daemon thread {dtid} consumed {burnt} CPU ticks since the shutdown request and is still running")},
+                    cfg.replay(case),
+                );
+                std::process::exit(report::finish());
+            }
             if wt > 0 && sys::parked_in(wt, &[sys::SYS_FUTEX]) && daemon_alive && sys::parked_in(dtid, &[sys::SYS_RECVMSG, sys::SYS_FUTEX]) && c.waiting().is_empty() {
                 std::thread::sleep(Duration::from_millis(20));
                 if !done.load(Ordering::SeqCst) && sys::parked_in(dtid, &[sys::SYS_RECVMSG, sys::SYS_FUTEX]) && sys::parked_in(wt, &[sys::SYS_FUTEX]) {
@@ -360,6 +385,35 @@ fn disconnect_cases(cfg: &Cfg) {
             let fds = if *with_fd { vec![reg.file.as_raw_fd()] } else { vec![] };
             if cut > 0 {
                 let _ = sys::send_all(peer.as_raw_fd(), &bytes[..cut], &fds);
+            }
+            // every other case: the peer only half-closes and keeps reading; once the daemon stopped
+            // serving it must see end-of-stream (decided when the daemon thread is gone)
+            if idx % 2 == 1 {
+                let before: Vec<i32> = s.new_threads().iter().filter(|t| t.1.starts_with(DAEMON)).map(|t| t.0).collect();
+                unsafe { libc::shutdown(peer.as_raw_fd(), libc::SHUT_WR) };
+                let mut eof = false;
+                let mut buf = [0u8; 256];
+                let mut daemon_gone = false;
+                sys::wait_until(10_000, || {
+                    if let Ok(r) = sys::recv_fds(peer.as_raw_fd(), &mut buf, libc::MSG_DONTWAIT) {
+                        eof = r.n == 0;
+                    }
+                    daemon_gone = !before.is_empty() && !sys::threads().iter().any(|t| before.contains(&t.0));
+                    eof || daemon_gone
+                });
+                if !eof && daemon_gone {
+                    // one more look after the thread is gone: the shutdown precedes the thread's exit
+                    if let Ok(r) = sys::recv_fds(peer.as_raw_fd(), &mut buf, libc::MSG_DONTWAIT) {
+                        eof = r.n == 0;
+                    }
+                }
+                report::count("disconnect.half_close", 1);
+                if !eof && daemon_gone {
+                    report::violation("C16:disconnect:half-close:peer-sees-no-end-of-stream",
+                        jo! {"request" => *name, "peer_half_closed_after_bytes" => cut, "message_length" => bytes.len(), "certificate" => "the daemon thread has terminated; the peer's read still would block"}, cfg.replay(&format!("disc:{idx}")));
+                } else if !eof {
+                    report::inconclusive(&format!("disc:{idx}: neither end-of-stream nor daemon thread exit observed"));
+                }
             }
             drop(peer);
             let r = s.daemon.wait();
